@@ -96,3 +96,10 @@ claim("C05", "other", "grammar-derived type-map check, def-use of casts and dtyp
       "a declared shape that differs raises before the store; ragged rows raise before the row-count reshape; parameters are recorded at their ordinal position and re-inserted in order; A[k] is row-major.",
       "Not decided: value equality of initialisers (C03). Trusted: NumPy array construction/reshape/insert semantics.",
       "DESIGN.md 5/C05")
+
+claim("C04", "other", "effect/provenance analysis of __call__, sibling agreement of the four substitution sites, guarded-lookup check, unordered-flow check (bind by name), structural checks of parameter collection and array positions",
+      "Decides the structural clauses: is_template/parameters derive from _parameters; the instantiated program is a deep copy with its parameter list reset; each of the four substitution sites uses the same bind-by-name idiom and every "
+      "value lookup is translated KeyError->ValueError; every {name} is recorded as Symbol(name), only parameter-derived names enter the table, non-p-type entries are published; whole-array parameters expand to name_i_j row-major; "
+      "array-element parameters are re-inserted at their ordinal positions.",
+      "Not decided: the numerical commutation itself (values after lambdify equal values after re-parsing the substituted text) - runtime arithmetic. Known finding: arrayvar's bare `parameter` alternative (see C02).",
+      "DESIGN.md 5/C04")
